@@ -24,6 +24,7 @@ type ReqSpec struct {
 	Trailers  [][2]string `json:"trailers,omitempty"`
 	NoHost    bool        `json:"no_host,omitempty"`
 	BlockCuts []int       `json:"block_cuts,omitempty"` // HTTP/2: header block cut into CONTINUATION frames
+	Scheme    string      `json:"scheme,omitempty"`     // HTTP/2 :scheme pseudo-header (default https)
 }
 
 type Exchange struct {
@@ -91,7 +92,11 @@ func (r ReqSpec) H1Bytes() []byte {
 
 // H2Fields renders the header list for HTTP/2 (names lower-cased, pseudo-headers first).
 func (r ReqSpec) H2Fields() [][2]string {
-	f := [][2]string{{":method", r.Method}, {":scheme", "https"}, {":authority", r.Authority}, {":path", r.Path}}
+	scheme := r.Scheme
+	if scheme == "" {
+		scheme = "https"
+	}
+	f := [][2]string{{":method", r.Method}, {":scheme", scheme}, {":authority", r.Authority}, {":path", r.Path}}
 	for _, h := range r.Headers {
 		f = append(f, [2]string{strings.ToLower(h[0]), h[1]})
 	}
